@@ -197,25 +197,64 @@ end
 
 /-! ### Constant actuals (literals and names of constants): their code does not look at the state -/
 
-/-- Literals and names of constants. -/
+/-- The operators whose constant-annotated node `OptimiseExpr` keeps as it is (the others are
+    rewritten to `~` / `<` / `=` even when they are constant). -/
+def keptOp : BinOp → Bool
+  | .plus | .minus | .eq | .ls | .and | .or => true
+  | _ => false
+
+/-- Constants: literals, names of constants, and the operators `ConstProp` folds over them (so
+    `-1`, `k + 1`), except the relational operators that `OptimiseExpr` rewrites. -/
 def isConstL (ρ : String → Option Word) : X.Expr → Bool
   | .num _ | .bool _ => true
   | .name n => (ρ n).isSome
+  | .un _ e => isConstL ρ e
+  | .bin op l r => keptOp op && isConstL ρ l && isConstL ρ r
   | _ => false
 
-theorem constL_pure (ρ : String → Option Word) (e : X.Expr) (h : isConstL ρ e = true) : pureE e = true := by
-  cases e <;> simp [isConstL] at h <;> rfl
+theorem constL_pure (ρ : String → Option Word) : (e : X.Expr) → isConstL ρ e = true → pureE e = true
+  | .num _, _ => rfl
+  | .bool _, _ => rfl
+  | .name _, _ => rfl
+  | .un _ x, h => by simp only [isConstL] at h; simp only [pureE]; exact constL_pure ρ x h
+  | .bin _ l r, h => by
+    simp only [isConstL, Bool.and_eq_true] at h
+    simp only [pureE, Bool.and_eq_true]
+    exact ⟨constL_pure ρ l h.1.2, constL_pure ρ r h.2⟩
+  | .str _, h => by simp [isConstL] at h
+  | .sub _ _, h => by simp [isConstL] at h
+  | .call _ _, h => by simp [isConstL] at h
+  | .syscall _ _, h => by simp [isConstL] at h
 
-theorem constL_const (ρ : String → Option Word) (e : X.Expr) (h : isConstL ρ e = true) :
-    (∃ c, (annotate ρ e).const = some c) ∧ optExpr (annotate ρ e) = annotate ρ e := by
-  cases e with
-  | num x => exact ⟨⟨x, rfl⟩, by simp [annotate, optExpr]⟩
-  | bool b => exact ⟨⟨_, rfl⟩, by simp [annotate, optExpr]⟩
-  | name n =>
+theorem constL_const (ρ : String → Option Word) : (e : X.Expr) → isConstL ρ e = true →
+    (∃ c, (annotate ρ e).const = some c) ∧ optExpr (annotate ρ e) = annotate ρ e
+  | .num x, _ => ⟨⟨x, rfl⟩, by simp [annotate, optExpr]⟩
+  | .bool b, _ => ⟨⟨_, rfl⟩, by simp [annotate, optExpr]⟩
+  | .name n, h => by
     simp only [isConstL] at h
     obtain ⟨c, hc⟩ := Option.isSome_iff_exists.mp h
     exact ⟨⟨c, by simp [annotate, hc]⟩, by simp [annotate, optExpr]⟩
-  | _ => simp [isConstL] at h
+  | .un op x, h => by
+    simp only [isConstL] at h
+    obtain ⟨⟨c, hc⟩, _⟩ := constL_const ρ x h
+    refine ⟨⟨foldUn op c, by simp [annotate, hc]⟩, ?_⟩
+    simp only [annotate, hc, Option.map_some]
+    rw [optExpr_un]
+    simp
+  | .bin op l r, h => by
+    simp only [isConstL, Bool.and_eq_true] at h
+    obtain ⟨⟨cl, hcl⟩, _⟩ := constL_const ρ l h.1.2
+    obtain ⟨⟨cr, hcr⟩, _⟩ := constL_const ρ r h.2
+    refine ⟨⟨foldBin op cl cr, by simp [annotate, hcl, hcr]⟩, ?_⟩
+    simp only [annotate, hcl, hcr]
+    rw [optExpr_bin]
+    simp only [Option.isSome_some, if_true]
+    have hk := h.1.1
+    cases op <;> simp [keptOp] at hk <;> rfl
+  | .str _, h => by simp [isConstL] at h
+  | .sub _ _, h => by simp [isConstL] at h
+  | .call _ _, h => by simp [isConstL] at h
+  | .syscall _ _, h => by simp [isConstL] at h
 
 /-- The triple of a constant actual holds relative to ANY source state. -/
 theorem execA_constL (K : PCtx) (wf : K.WF) (e : X.Expr) (hc : isConstL K.ρ e = true) (fuel : Nat) (σ0 σ1 : X.St) (v : Val)
